@@ -60,8 +60,13 @@ func (ex *Exec) finishBuiltin(st *State, pc *preparedCall, k func(*State, []Val)
 		if call.Ellipsis.IsValid() {
 			b := a[1]
 			if b.S.K == KString {
-				ex.assumptions["string/[]byte conversions are havocked"] = true
-				one(ex.freshWf(st, "append", t))
+				// append([]byte, string...): the result spells the old bytes followed by the string
+				r := ex.freshWf(st, "append", t)
+				if isByteSlice(t) {
+					st.assume(eq(ex.bstr(r), app("str.++", ex.bstr(cur), b.T)))
+					st.assume(not(app("s-nil", r.T)))
+				}
+				one(r)
 				return
 			}
 			r := ex.freshVal("append", t)
@@ -119,14 +124,16 @@ func (ex *Exec) finishBuiltin(st *State, pc *preparedCall, k func(*State, []Val)
 	case "delete":
 		m := a[0]
 		key := ex.convert(st, a[1], under(ex.typeOf(call.Args[0])).(*types.Map).Key())
-		ex.assignTo(st, call.Args[0], ex.share(st, mapDelete(ex.share(st, m), key.T)), func(st2 *State) { k(st2, nil) })
+		ex.checkMapParamWrite(call.Pos(), call.Args[0])
+		ex.assignMapInPlace(st, call.Args[0], ex.share(st, mapDelete(ex.share(st, m), key.T)), func(st2 *State) { k(st2, nil) })
 	case "clear":
 		t := ex.typeOf(call.Args[0])
 		s := ex.sortOf(t)
 		if s.K != KMap {
 			ex.oof(call.Pos(), "clear of %s", t)
 		}
-		ex.assignTo(st, call.Args[0], Val{T: mkMap(s, zeroOf(SetOf(s.Key)), app("m-val", a[0].T), "0", app("m-nil", a[0].T)), S: s, GoT: t}, func(st2 *State) { k(st2, nil) })
+		ex.checkMapParamWrite(call.Pos(), call.Args[0])
+		ex.assignMapInPlace(st, call.Args[0], Val{T: mkMap(s, zeroOf(SetOf(s.Key)), app("m-val", a[0].T), "0", app("m-nil", a[0].T)), S: s, GoT: t}, func(st2 *State) { k(st2, nil) })
 	case "panic":
 		// the path ends here (partial correctness w.r.t. normal return)
 		ex.assumptions["panicking paths are not checked (partial correctness w.r.t. normal return)"] = true
@@ -682,7 +689,10 @@ func (ex *Exec) scanEffects(n ast.Node, vars map[types.Object]bool, eff *effects
 			}
 			if fc == nil {
 				if id, ok := fun.(*ast.Ident); ok && ex.pureCallbackField(id.Name) {
-					return true // deterministic callback: no effect
+					if ex.fc != nil && ex.fc.CountedPure[id.Name] {
+						ex.markCallbackCounters(eff)
+					}
+					return true // deterministic callback: no effect (but counted where the contract opts in)
 				}
 				if id, ok := fun.(*ast.Ident); ok && ex.fc != nil && len(ex.fc.Dispatch[id.Name]) > 0 {
 					// dispatch VAR over f1, ...: the effects are those of the candidates (#dispatch[VAR]
@@ -716,6 +726,9 @@ func (ex *Exec) scanEffects(n ast.Node, vars map[types.Object]bool, eff *effects
 					return true
 				}
 				if sel, ok := fun.(*ast.SelectorExpr); ok && info.Selections[sel] != nil && info.Selections[sel].Kind() == types.FieldVal && ex.pureCallbackField(sel.Sel.Name) {
+					if ex.fc != nil && ex.fc.CountedPure[sel.Sel.Name] {
+						ex.markCallbackCounters(eff)
+					}
 					return true
 				}
 				if eff != nil {
@@ -889,6 +902,17 @@ func (ex *Exec) calleeKeepsParam(call *ast.CallExpr, i int) bool {
 		}
 	}
 	return true
+}
+
+func (ex *Exec) markCallbackCounters(eff *effects) {
+	if eff == nil || !ex.countsCallbacks() {
+		return
+	}
+	for g := range ex.cs.Ghost {
+		if strings.HasPrefix(g, "cbArg") || g == "cbCalls" {
+			eff.ghost[g] = true
+		}
+	}
 }
 
 // havocAssigned forgets everything the node may change.
